@@ -1,4 +1,752 @@
 import SqliteDissect.Model.Wal
 import SqliteDissect.Spec.WalFmt
 namespace SqliteDissect.Proofs.Wal
+open SqliteDissect SqliteDissect.Model
+
+/-! ### groupFrames -/
+
+theorem groupFrames_cons (f : Frame) (rest cur : List Frame) (acc : List (List Frame)) :
+    groupFrames (f :: rest) cur acc =
+      if f.isCommit then groupFrames rest [] ((f :: cur).reverse :: acc) else groupFrames rest (f :: cur) acc := by
+  rw [groupFrames]
+
+theorem group_gen (fs : List Frame) : ∀ (cur : List Frame) (acc gs : List (List Frame)) (rest : List Frame),
+    groupFrames fs cur acc = (gs, rest) → (∀ f ∈ cur, f.isCommit = false) →
+    ∃ gs', gs = acc.reverse ++ gs' ∧ gs'.flatten ++ rest = cur.reverse ++ fs ∧
+      (∀ g ∈ gs', ∃ init last, g = init ++ [last] ∧ last.isCommit = true ∧ ∀ f ∈ init, f.isCommit = false) ∧
+      (∀ f ∈ rest, f.isCommit = false) := by
+  induction fs with
+  | nil =>
+    intro cur acc gs rest h hc
+    simp only [groupFrames, Prod.mk.injEq] at h
+    refine ⟨[], ?_, ?_, ?_, ?_⟩
+    · simp [h.1]
+    · simp [h.2]
+    · simp
+    · intro f hf; rw [← h.2] at hf; exact hc f (List.mem_reverse.mp hf)
+  | cons f fs ih =>
+    intro cur acc gs rest h hc
+    unfold groupFrames at h
+    by_cases hf : f.isCommit = true
+    · rw [if_pos hf] at h
+      obtain ⟨gs', h1, h2, h3, h4⟩ := ih [] _ gs rest h (by simp)
+      refine ⟨(f :: cur).reverse :: gs', ?_, ?_, ?_, h4⟩
+      · rw [h1]; simp
+      · simp only [List.flatten_cons, List.reverse_cons, List.append_assoc]
+        rw [h2]; simp
+      · intro g hg
+        rcases List.mem_cons.mp hg with rfl | hg
+        · exact ⟨cur.reverse, f, by simp, hf, fun x hx => hc x (List.mem_reverse.mp hx)⟩
+        · exact h3 g hg
+    · rw [if_neg hf] at h
+      have hf' : f.isCommit = false := by simpa using hf
+      obtain ⟨gs', h1, h2, h3, h4⟩ := ih (f :: cur) acc gs rest h (by
+        intro x hx; rcases List.mem_cons.mp hx with rfl | hx
+        · exact hf'
+        · exact hc x hx)
+      refine ⟨gs', h1, ?_, h3, h4⟩
+      rw [h2]; simp
+
+theorem group_spec (fs : List Frame) (gs : List (List Frame)) (rest : List Frame)
+    (h : groupFrames fs [] [] = (gs, rest)) :
+    gs.flatten ++ rest = fs ∧
+    (∀ g ∈ gs, ∃ init last, g = init ++ [last] ∧ last.isCommit = true ∧ ∀ f ∈ init, f.isCommit = false) ∧
+    (∀ f ∈ rest, f.isCommit = false) := by
+  obtain ⟨gs', h1, h2, h3, h4⟩ := group_gen fs [] [] gs rest h (by simp)
+  simp only [List.reverse_nil, List.nil_append] at h1 h2
+  subst h1
+  exact ⟨h2, h3, h4⟩
+
+theorem group_count_gen (fs : List Frame) : ∀ (cur : List Frame) (acc : List (List Frame)),
+    (groupFrames fs cur acc).1.length = acc.length + (fs.filter Frame.isCommit).length := by
+  induction fs with
+  | nil => intro cur acc; simp [groupFrames]
+  | cons f fs ih =>
+    intro cur acc
+    unfold groupFrames
+    by_cases hf : f.isCommit = true
+    · rw [if_pos hf, ih, List.filter_cons_of_pos hf]; simp; omega
+    · rw [if_neg hf, ih, List.filter_cons_of_neg hf]
+
+theorem version_count (fs : List Frame) :
+    (groupFrames fs [] []).1.length = (fs.filter Frame.isCommit).length := by
+  rw [group_count_gen]; simp
+
+theorem group_append (a b : List Frame) : ∀ (cur : List Frame) (acc : List (List Frame)),
+    groupFrames (a ++ b) cur acc
+      = groupFrames b (groupFrames a cur acc).2.reverse (groupFrames a cur acc).1.reverse := by
+  induction a with
+  | nil => intro cur acc; simp [groupFrames]
+  | cons f a ih =>
+    intro cur acc
+    simp only [List.cons_append, groupFrames_cons]
+    by_cases hf : f.isCommit = true
+    · simp only [if_pos hf]; rw [ih]
+    · simp only [if_neg hf]; rw [ih]
+
+theorem group_fst_prefix (fs : List Frame) : ∀ (cur : List Frame) (acc : List (List Frame)),
+    acc.reverse <+: (groupFrames fs cur acc).1 := by
+  induction fs with
+  | nil => intro cur acc; simp [groupFrames]
+  | cons f fs ih =>
+    intro cur acc
+    unfold groupFrames
+    by_cases hf : f.isCommit = true
+    · rw [if_pos hf]
+      refine List.IsPrefix.trans ?_ (ih _ _)
+      simp
+    · rw [if_neg hf]; exact ih _ _
+
+theorem group_ends_commit (init : List Frame) (last : Frame) (hl : last.isCommit = true) :
+    (groupFrames (init ++ [last]) [] []).2 = [] := by
+  rw [group_append]
+  simp [groupFrames, hl]
+
+theorem group_prefix (fs1 fs2 : List Frame) (init : List Frame) (last : Frame)
+    (h1 : fs1 = init ++ [last]) (hl : last.isCommit = true) :
+    (groupFrames fs1 [] []).1 <+: (groupFrames (fs1 ++ fs2) [] []).1 ∧ (groupFrames fs1 [] []).2 = [] := by
+  subst h1
+  refine ⟨?_, group_ends_commit init last hl⟩
+  rw [group_append (init ++ [last]) fs2]
+  have := group_fst_prefix fs2 (groupFrames (init ++ [last]) [] []).2.reverse (groupFrames (init ++ [last]) [] []).1.reverse
+  simpa using this
+
+
+/-! ### dictionaries -/
+
+theorem dictGet?_nil {α : Type} (k : Nat) : dictGet? ([] : List (Nat × α)) k = none := rfl
+
+theorem dictGet?_cons {α : Type} (e : Nat × α) (d : List (Nat × α)) (k : Nat) :
+    dictGet? (e :: d) k = if e.1 = k then some e.2 else dictGet? d k := by
+  unfold dictGet?
+  by_cases h : e.1 = k <;> simp [h]
+
+theorem dictGet?_append_single {α : Type} (d : List (Nat × α)) (k' k : Nat) (x : α) :
+    dictGet? (d ++ [(k', x)]) k = (dictGet? d k).or (if k' = k then some x else none) := by
+  induction d with
+  | nil => simp [dictGet?_cons, dictGet?_nil]
+  | cons e d ih =>
+    simp only [List.cons_append, dictGet?_cons, ih]
+    by_cases h : e.1 = k <;> simp [h]
+
+theorem dictGet?_eq_none_iff {α : Type} (d : List (Nat × α)) (k : Nat) :
+    dictGet? d k = none ↔ k ∉ d.map (·.1) := by
+  induction d with
+  | nil => simp [dictGet?_nil]
+  | cons e d ih =>
+    simp only [dictGet?_cons, List.map_cons, List.mem_cons, not_or]
+    by_cases h : e.1 = k
+    · simp [h]
+    · simp only [h, if_false, ih]
+      constructor
+      · intro h2; exact ⟨fun h3 => h h3.symm, h2⟩
+      · intro h2; exact h2.2
+
+theorem any_key_iff {α : Type} (d : List (Nat × α)) (k : Nat) :
+    d.any (fun e => decide (e.1 = k)) = true ↔ k ∈ d.map (·.1) := by
+  simp only [List.any_eq_true, decide_eq_true_eq, List.mem_map]
+
+theorem dictGet?_map_replace {α : Type} (d : List (Nat × α)) (k k' : Nat) (x : α) :
+    dictGet? (d.map (fun e => if e.1 = k then (k, x) else e)) k'
+      = if k' = k then (dictGet? d k').map (fun _ => x) else dictGet? d k' := by
+  induction d with
+  | nil => simp [dictGet?_nil]
+  | cons e d ih =>
+    simp only [List.map_cons, dictGet?_cons, ih]
+    by_cases h1 : e.1 = k <;> by_cases h2 : k' = k <;> by_cases h3 : e.1 = k' <;> simp_all
+
+theorem dictGet?_dictInsert_same {α : Type} (d : List (Nat × α)) (k : Nat) (x : α) :
+    dictGet? (dictInsert d k x) k = some x := by
+  unfold dictInsert
+  by_cases h : d.any (fun e => decide (e.1 = k)) = true
+  · rw [if_pos h, dictGet?_map_replace, if_pos rfl]
+    have : dictGet? d k ≠ none := by
+      rw [Ne, dictGet?_eq_none_iff]; exact fun hn => hn ((any_key_iff d k).mp h)
+    cases hd : dictGet? d k with
+    | none => exact absurd hd this
+    | some v => rfl
+  · rw [if_neg h, dictGet?_append_single, if_pos rfl]
+    have : dictGet? d k = none := by
+      rw [dictGet?_eq_none_iff]; exact fun hn => h ((any_key_iff d k).mpr hn)
+    rw [this]; rfl
+
+theorem dictGet?_dictInsert_other {α : Type} (d : List (Nat × α)) (k k' : Nat) (x : α) (hne : k' ≠ k) :
+    dictGet? (dictInsert d k x) k' = dictGet? d k' := by
+  unfold dictInsert
+  by_cases h : d.any (fun e => decide (e.1 = k)) = true
+  · rw [if_pos h, dictGet?_map_replace, if_neg hne]
+  · rw [if_neg h, dictGet?_append_single, if_neg (fun h => hne h.symm)]; simp
+
+theorem keys_dictInsert {α : Type} (d : List (Nat × α)) (k : Nat) (x : α) :
+    (dictInsert d k x).map (·.1) = if k ∈ d.map (·.1) then d.map (·.1) else d.map (·.1) ++ [k] := by
+  unfold dictInsert
+  by_cases h : d.any (fun e => decide (e.1 = k)) = true
+  · rw [if_pos h, if_pos ((any_key_iff d k).mp h), List.map_map]
+    apply List.map_congr_left
+    intro e _
+    by_cases he : e.1 = k <;> simp [he]
+  · rw [if_neg h, if_neg (fun hn => h ((any_key_iff d k).mpr hn))]; simp
+
+theorem keys_nodup_dictInsert {α : Type} (d : List (Nat × α)) (k : Nat) (x : α)
+    (h : (d.map (·.1)).Nodup) : ((dictInsert d k x).map (·.1)).Nodup := by
+  rw [keys_dictInsert]
+  by_cases hk : k ∈ d.map (·.1)
+  · rw [if_pos hk]; exact h
+  · rw [if_neg hk]
+    rw [List.nodup_append]
+    refine ⟨h, by simp, ?_⟩
+    intro a ha b hb
+    simp only [List.mem_singleton] at hb
+    subst hb
+    exact fun hab => hk (hab ▸ ha)
+
+theorem mem_keys_dictInsert {α : Type} (d : List (Nat × α)) (k k' : Nat) (x : α) :
+    k' ∈ (dictInsert d k x).map (·.1) ↔ k' = k ∨ k' ∈ d.map (·.1) := by
+  rw [keys_dictInsert]
+  by_cases hk : k ∈ d.map (·.1)
+  · rw [if_pos hk]
+    constructor
+    · exact Or.inr
+    · rintro (rfl | h)
+      · exact hk
+      · exact h
+  · rw [if_neg hk]; simp [or_comm]
+abbrev RecSt := List (Nat × Frame) × Bool × Nat
+
+def recStep (st : RecSt) (f : Frame) : Py RecSt :=
+  if f.isCommit ∧ st.2.1 then (.error .parseError : Py RecSt)
+  else pure (dictInsert st.1 f.hdr.pageNumber f, st.2.1 ∨ f.isCommit, if f.isCommit then f.hdr.sizeAfterCommit else st.2.2)
+
+theorem recordFrames_eq (g : List Frame) : recordFrames g = g.foldlM recStep ([], false, 0) := rfl
+
+set_option pp.all false in
+theorem recStep_mk (d c s f) : recStep (d, c, s) f = 
+   if f.isCommit = true ∧ c = true then .error .parseError
+   else .ok (dictInsert d f.hdr.pageNumber f, c || f.isCommit, if f.isCommit then f.hdr.sizeAfterCommit else s) := by
+  unfold recStep
+  simp
+  rfl
+
+def recIns (d : List (Nat × Frame)) (f : Frame) : List (Nat × Frame) := dictInsert d f.hdr.pageNumber f
+
+def lastOf (g : List Frame) (p : Nat) : Option Frame :=
+  (g.filter fun f => f.hdr.pageNumber = p).getLast?
+
+theorem latestFrame_eq (g : List Frame) (p : Nat) : Spec.latestFrame g p = (lastOf g p).map Frame.number := rfl
+
+theorem lastOf_nil (p : Nat) : lastOf [] p = none := rfl
+
+theorem lastOf_append (a b : List Frame) (p : Nat) : lastOf (a ++ b) p = (lastOf b p).or (lastOf a p) := by
+  unfold lastOf
+  rw [List.filter_append, List.getLast?_append]
+
+theorem lastOf_single (f : Frame) (p : Nat) : lastOf [f] p = if f.hdr.pageNumber = p then some f else none := by
+  unfold lastOf
+  by_cases h : f.hdr.pageNumber = p <;> simp [h]
+
+theorem lastOf_cons (f : Frame) (g : List Frame) (p : Nat) :
+    lastOf (f :: g) p = (lastOf g p).or (if f.hdr.pageNumber = p then some f else none) := by
+  rw [← lastOf_single, ← lastOf_append]; rfl
+
+theorem lastOf_isSome (g : List Frame) (p : Nat) :
+    (lastOf g p).isSome = g.any (fun f => f.hdr.pageNumber = p) := by
+  induction g with
+  | nil => rfl
+  | cons f g ih =>
+    rw [lastOf_cons, List.any_cons, Option.isSome_or, ih]
+    by_cases h : f.hdr.pageNumber = p <;> simp [h, Bool.or_comm]
+
+theorem recordFrames_fd (g : List Frame) : ∀ (d : List (Nat × Frame)) (c : Bool) (s : Nat) (r : RecSt),
+    g.foldlM recStep (d, c, s) = .ok r → r.1 = g.foldl recIns d := by
+  induction g with
+  | nil => intro d c s r h; simp only [List.foldlM_nil, pure, Except.pure, Except.ok.injEq] at h; subst h; rfl
+  | cons f g ih =>
+    intro d c s r h
+    rw [List.foldlM_cons, recStep_mk] at h
+    by_cases hc : f.isCommit = true ∧ c = true
+    · rw [if_pos hc] at h; exact nomatch h
+    · rw [if_neg hc] at h
+      exact ih _ _ _ r h
+
+theorem dictGet?_recDict (g : List Frame) (p : Nat) : ∀ d : List (Nat × Frame),
+    dictGet? (g.foldl recIns d) p = (lastOf g p).or (dictGet? d p) := by
+  induction g with
+  | nil => intro d; simp [lastOf_nil]
+  | cons f g ih =>
+    intro d
+    rw [List.foldl_cons, ih, lastOf_cons, Option.or_assoc]
+    congr 1
+    unfold recIns
+    by_cases h : f.hdr.pageNumber = p
+    · subst h; rw [dictGet?_dictInsert_same]; simp
+    · rw [dictGet?_dictInsert_other _ _ _ _ (fun h' => h h'.symm)]; simp [h]
+
+theorem nodup_recDict (g : List Frame) : ∀ d : List (Nat × Frame),
+    (d.map (·.1)).Nodup → ((g.foldl recIns d).map (·.1)).Nodup := by
+  induction g with
+  | nil => intro d h; exact h
+  | cons f g ih => intro d h; exact ih _ (keys_nodup_dictInsert _ _ _ h)
+
+theorem mem_keys_iff {α : Type} (d : List (Nat × α)) (k : Nat) :
+    k ∈ d.map (·.1) ↔ (dictGet? d k).isSome = true := by
+  have := dictGet?_eq_none_iff d k
+  cases h : dictGet? d k with
+  | none => simp [h] at this; simpa using this
+  | some v => simp [h] at this; simpa using this
+
+/-- lookup after `nextPfi` -/
+theorem dictGet?_nextPfi (fd : List (Nat × Frame)) (p : Nat) : ∀ prev : List (Nat × Nat),
+    (fd.map (·.1)).Nodup →
+    dictGet? (nextPfi prev fd) p = ((dictGet? fd p).map Frame.number).or (dictGet? prev p) := by
+  unfold nextPfi
+  induction fd with
+  | nil => intro prev _; simp [dictGet?_nil]
+  | cons e fd ih =>
+    intro prev hnd
+    rw [List.map_cons, List.nodup_cons] at hnd
+    rw [List.foldl_cons, ih _ hnd.2, dictGet?_cons]
+    unfold dictSet
+    by_cases h : e.1 = p
+    · subst h
+      rw [dictGet?_dictInsert_same, (dictGet?_eq_none_iff fd e.1).mpr hnd.1]
+      simp
+    · rw [dictGet?_dictInsert_other _ _ _ _ (fun h' => h h'.symm), if_neg h]
+
+theorem dictGet?_nextPvi (keys : List Nat) (n p : Nat) : ∀ prev : List (Nat × Nat),
+    dictGet? (nextPvi prev n keys) p = if p ∈ keys then some n else dictGet? prev p := by
+  unfold nextPvi
+  induction keys with
+  | nil => intro prev; simp
+  | cons k keys ih =>
+    intro prev
+    rw [List.foldl_cons, ih]
+    unfold dictSet
+    by_cases h1 : p ∈ keys
+    · simp [h1]
+    · by_cases h2 : p = k
+      · subst h2; simp [h1, dictGet?_dictInsert_same]
+      · simp [h1, h2, dictGet?_dictInsert_other _ _ _ _ h2]
+
+theorem recordFrames_ok_fd (g : List Frame) (fd : List (Nat × Frame)) (c : Bool) (s : Nat)
+    (h : recordFrames g = .ok (fd, c, s)) : fd = g.foldl recIns [] := by
+  rw [recordFrames_eq] at h
+  exact recordFrames_fd g [] false 0 _ h
+
+theorem recDict_nodup (g : List Frame) : ((g.foldl recIns []).map (·.1)).Nodup :=
+  nodup_recDict g [] (by simp)
+
+theorem recDict_get (g : List Frame) (p : Nat) : dictGet? (g.foldl recIns []) p = lastOf g p := by
+  rw [dictGet?_recDict]; simp [dictGet?_nil]
+
+theorem pfi_gen (gs : List (List Frame)) (p : Nat)
+    (hok : ∀ g ∈ gs, ∃ r, recordFrames g = .ok r) : ∀ pfi0 : List (Nat × Nat),
+    dictGet? (gs.foldl (fun pfi g =>
+        match recordFrames g with
+        | .ok (fd, _, _) => nextPfi pfi fd
+        | .error _ => pfi) pfi0) p
+      = (Spec.latestFrame gs.flatten p).or (dictGet? pfi0 p) := by
+  induction gs with
+  | nil => intro pfi0; simp [Spec.latestFrame]
+  | cons g gs ih =>
+    intro pfi0
+    obtain ⟨⟨fd, c, s⟩, hr⟩ := hok g (by simp)
+    rw [List.foldl_cons, ih (fun g' hg' => hok g' (by simp [hg']))]
+    simp only [hr]
+    have hfd := recordFrames_ok_fd g fd c s hr
+    subst hfd
+    rw [dictGet?_nextPfi _ _ _ (recDict_nodup g), recDict_get, List.flatten_cons, latestFrame_eq, latestFrame_eq,
+      lastOf_append, ← Option.or_assoc]
+    congr 1
+    simp only [Option.map_or]
+
+theorem page_frame_index_latest (gs : List (List Frame)) (p : Nat)
+    (hok : ∀ g ∈ gs, ∃ r, recordFrames g = .ok r) :
+    dictGet? (gs.foldl (fun pfi g =>
+        match recordFrames g with
+        | .ok (fd, _, _) => nextPfi pfi fd
+        | .error _ => pfi) []) p
+      = Spec.latestFrame gs.flatten p := by
+  rw [pfi_gen gs p hok]; simp [dictGet?_nil]
+
+theorem pvi_gen (gs : List (List Frame)) (p : Nat)
+    (hok : ∀ g ∈ gs, ∃ r, recordFrames g = .ok r) : ∀ (n : Nat) (base : List (Nat × Nat)),
+    dictGet? ((gs.zipIdx n).foldl (fun pvi (gk : List Frame × Nat) =>
+        match recordFrames gk.1 with
+        | .ok (fd, _, _) => nextPvi pvi gk.2 (fd.map (·.1))
+        | .error _ => pvi) base) p
+      = match Spec.latestTxn gs p with
+        | some k => some (n + k - 1)
+        | none => dictGet? base p := by
+  induction gs with
+  | nil => intro n base; simp [Spec.latestTxn]
+  | cons g gs ih =>
+    intro n base
+    obtain ⟨⟨fd, c, s⟩, hr⟩ := hok g (by simp)
+    rw [List.zipIdx_cons, List.foldl_cons, ih (fun g' hg' => hok g' (by simp [hg']))]
+    simp only [hr, Spec.latestTxn]
+    have hfd := recordFrames_ok_fd g fd c s hr
+    subst hfd
+    cases hl : Spec.latestTxn gs p with
+    | some k => simp only; congr 1; omega
+    | none =>
+      simp only
+      rw [dictGet?_nextPvi]
+      have hk : p ∈ (g.foldl recIns []).map (·.1) ↔ (g.any fun f => decide (f.hdr.pageNumber = p)) = true := by
+        rw [mem_keys_iff, recDict_get, lastOf_isSome]
+      by_cases ha : (g.any fun f => decide (f.hdr.pageNumber = p)) = true
+      · rw [if_pos (hk.mpr ha), if_pos ha]; simp
+      · rw [if_neg (fun h => ha (hk.mp h)), if_neg ha]
+
+theorem page_version_index_latest (gs : List (List Frame)) (base : List (Nat × Nat)) (p : Nat)
+    (hok : ∀ g ∈ gs, ∃ r, recordFrames g = .ok r) :
+    dictGet? ((gs.zipIdx 1).foldl (fun pvi (gk : List Frame × Nat) =>
+        match recordFrames gk.1 with
+        | .ok (fd, _, _) => nextPvi pvi gk.2 (fd.map (·.1))
+        | .error _ => pvi) base) p
+      = match Spec.latestTxn gs p with
+        | some k => some k
+        | none => dictGet? base p := by
+  rw [pvi_gen gs p hok]
+  cases Spec.latestTxn gs p with
+  | some k => simp
+  | none => rfl
+
+theorem record_init (init : List Frame) (hi : ∀ f ∈ init, f.isCommit = false) :
+    ∀ (d : List (Nat × Frame)) (s : Nat),
+    init.foldlM recStep (d, false, s) = .ok (init.foldl recIns d, false, s) := by
+  induction init with
+  | nil => intro d s; rfl
+  | cons f init ih =>
+    intro d s
+    have hf : f.isCommit = false := hi f (by simp)
+    rw [List.foldlM_cons, recStep_mk]
+    simp only [hf, Bool.false_eq_true, false_and, if_false, Bool.or_false]
+    exact ih (fun x hx => hi x (by simp [hx])) _ _
+
+theorem record_accepts (init : List Frame) (last : Frame)
+    (hi : ∀ f ∈ init, f.isCommit = false) (hl : last.isCommit = true) :
+    ∃ fd, recordFrames (init ++ [last]) = .ok (fd, true, last.hdr.sizeAfterCommit) ∧
+      ∀ p, (dictGet? fd p).map Frame.number = Spec.latestFrame (init ++ [last]) p := by
+  refine ⟨(init ++ [last]).foldl recIns [], ?_, ?_⟩
+  · rw [recordFrames_eq, List.foldlM_append, record_init init hi]
+    simp only [bind, Except.bind, List.foldlM_cons, List.foldlM_nil, recStep_mk, hl]
+    simp [pure, Except.pure, recIns]
+  · intro p
+    rw [recDict_get, latestFrame_eq]
+
+theorem frame_offset (ps f : Nat) (hf : 1 ≤ f) :
+    Generated.WAL_HEADER_LENGTH + Generated.WAL_FRAME_HEADER_LENGTH * f + ps * (f - 1) = Spec.frameImageOffset ps f := by
+  simp only [Generated.WAL_HEADER_LENGTH, Generated.WAL_FRAME_HEADER_LENGTH, Spec.frameImageOffset]
+  obtain ⟨k, rfl⟩ : ∃ k, f = k + 1 := ⟨f - 1, by omega⟩
+  simp only [Nat.add_sub_cancel, Nat.mul_add, Nat.mul_comm ps k]
+  omega
+theorem readFrame_index (fh : FileH) (ps i c : Nat) (f : Frame) (h : readFrame fh ps i c = .ok f) :
+    f.index = i := by
+  unfold readFrame at h
+  simp only [bind, Except.bind] at h
+  split at h
+  · exact nomatch h
+  · split at h
+    · exact nomatch h
+    · split at h
+      · exact nomatch h
+      · simp only [pure, Except.pure, Except.ok.injEq] at h
+        rw [← h]
+
+theorem walScanStep_ok (fh : FileH) (h : WalHeader) (st st' : WalScan) (i : Nat)
+    (hs : walScanStep fh h st i = .ok st') :
+    ∃ f, readFrame fh h.pageSize i st.crn = .ok f ∧
+      ((f.hdr.salt1 ≠ h.salt1 ∧ st'.valid = st.valid ∧
+          st'.invalid = st.invalid ++ [{ f with commitRecordNumber := none }] ∧ st'.invIdx ≠ []) ∨
+       (f.hdr.salt1 = h.salt1 ∧ f.hdr.salt2 = h.salt2 ∧ st.invIdx = [] ∧ st'.valid = st.valid ++ [f] ∧
+          st'.invalid = st.invalid ∧ st'.invIdx = [])) := by
+  unfold walScanStep at hs
+  simp only [bind, Except.bind] at hs
+  split at hs
+  · exact nomatch hs
+  · rename_i f hf
+    refine ⟨f, hf, ?_⟩
+    by_cases h1 : f.hdr.salt1 = h.salt1
+    · right
+      rw [if_neg (by simpa using h1)] at hs
+      by_cases h2 : f.hdr.salt2 = h.salt2
+      · rw [if_neg (by simpa using h2)] at hs
+        by_cases h3 : st.invIdx.isEmpty = true
+        · rw [if_neg (by simpa using h3)] at hs
+          simp only [pure, Except.pure, Except.ok.injEq] at hs
+          have h3' : st.invIdx = [] := by simpa using h3
+          subst hs
+          exact ⟨h1, h2, h3', rfl, rfl, h3'⟩
+        · rw [if_pos h3] at hs; exact nomatch hs
+      · rw [if_pos h2] at hs; exact nomatch hs
+    · left
+      rw [if_pos h1] at hs
+      split at hs
+      · rename_i k first last hfind
+        split at hs
+        · exact nomatch hs
+        · simp only [pure, Except.pure, Except.ok.injEq] at hs
+          subst hs
+          refine ⟨h1, rfl, rfl, ?_⟩
+          intro hmap
+          simp only [List.map_eq_nil_iff] at hmap
+          rw [hmap] at hfind
+          exact nomatch hfind
+      · simp only [pure, Except.pure, Except.ok.injEq] at hs
+        subst hs
+        exact ⟨h1, rfl, rfl, by simp⟩
+
+theorem foldlM_range_induct {σ : Type} (f : σ → Nat → Py σ) (s0 : σ) (P : Nat → σ → Prop)
+    (h0 : P 0 s0) (hstep : ∀ i s s', P i s → f s i = .ok s' → P (i + 1) s') :
+    ∀ n s, (List.range n).foldlM f s0 = .ok s → P n s := by
+  intro n
+  induction n with
+  | zero => intro s h; simp only [List.range_zero, List.foldlM_nil, pure, Except.pure, Except.ok.injEq] at h; subst h; exact h0
+  | succ n ih =>
+    intro s h
+    rw [List.range_succ, List.foldlM_append] at h
+    simp only [bind, Except.bind] at h
+    split at h
+    · exact nomatch h
+    · rename_i s1 hs1
+      simp only [List.foldlM_cons, List.foldlM_nil, bind, Except.bind] at h
+      split at h
+      · exact nomatch h
+      · rename_i s2 hs2
+        simp only [pure, Except.pure, Except.ok.injEq] at h
+        subst h
+        exact hstep n s1 s2 (ih s1 hs1) hs2
+
+def givenSz (gs : Option Nat) (file : Buf) : Nat :=
+  match gs with | some 0 => file.size | some n => n | none => file.size
+
+theorem openWal_ok (gs : Option Nat) (file : Buf) (w : Wal) (h : openWal gs file = .ok w) :
+    ∃ (hdr : WalHeader) (st : WalScan) (fsize : Nat),
+      fsize = givenSz gs file ∧
+      parseWalHeader (file.slice 0 Generated.WAL_HEADER_LENGTH) = .ok hdr ∧
+      (List.range (Int.tdiv ((fsize : Int) - Generated.WAL_HEADER_LENGTH)
+          ((Generated.WAL_FRAME_HEADER_LENGTH : Int) + hdr.pageSize)).toNat).foldlM (walScanStep ⟨fsize, file⟩ hdr) {} = .ok st ∧
+      st.valid ≠ [] ∧ lastCommitIndex st.valid = (st.valid.length : Int) - 1 ∧
+      w.hdr = hdr ∧ w.frames = st.valid ∧ w.invalid = st.invalid ∧
+      w.nFrames = Int.tdiv ((fsize : Int) - Generated.WAL_HEADER_LENGTH)
+          ((Generated.WAL_FRAME_HEADER_LENGTH : Int) + hdr.pageSize) := by
+  unfold openWal at h
+  simp only [bind, Except.bind] at h
+  split at h
+  · exact nomatch h
+  · rename_i hdr hhdr
+    split at h
+    · exact nomatch h
+    · rename_i st hst
+      split at h
+      · exact nomatch h
+      · rename_i x hlast
+        split at h
+        · exact nomatch h
+        · rename_i hlc
+          simp only [pure, Except.pure, Except.ok.injEq] at h
+          subst h
+          refine ⟨hdr, st, _, rfl, hhdr, hst, ?_, ?_, rfl, rfl, rfl, rfl⟩
+          · intro hnil; rw [hnil] at hlast; exact nomatch hlast
+          · simpa using hlc
+
+structure ScanInv (h : WalHeader) (i : Nat) (st : WalScan) : Prop where
+  idx : st.valid.map Frame.index = List.range st.valid.length
+  full : st.invIdx = [] → st.valid.length = i
+  salts : ∀ f ∈ st.valid, f.hdr.salt1 = h.salt1 ∧ f.hdr.salt2 = h.salt2
+  stale : ∀ f ∈ st.invalid, f.hdr.salt1 ≠ h.salt1
+  count : st.valid.length + st.invalid.length = i
+
+theorem scanInv_init (h : WalHeader) : ScanInv h 0 {} :=
+  ⟨rfl, fun _ => rfl, by simp, by simp, rfl⟩
+
+theorem scanInv_step (fh : FileH) (h : WalHeader) (i : Nat) (st st' : WalScan)
+    (hi : ScanInv h i st) (hs : walScanStep fh h st i = .ok st') : ScanInv h (i + 1) st' := by
+  obtain ⟨f, hf, hcase⟩ := walScanStep_ok fh h st st' i hs
+  have hidx := readFrame_index _ _ _ _ _ hf
+  rcases hcase with ⟨h1, hv, hinv, hne⟩ | ⟨h1, h2, hemp, hv, hinv, hemp'⟩
+  · refine ⟨by rw [hv]; exact hi.idx, fun he => absurd he hne, by rw [hv]; exact hi.salts, ?_, ?_⟩
+    · intro x hx
+      rw [hinv, List.mem_append, List.mem_singleton] at hx
+      rcases hx with hx | rfl
+      · exact hi.stale x hx
+      · exact h1
+    · rw [hv, hinv, List.length_append, List.length_singleton]; have := hi.count; omega
+  · have hlen := hi.full hemp
+    refine ⟨?_, fun _ => by rw [hv, List.length_append, List.length_singleton, hlen], ?_, by rw [hinv]; exact hi.stale, ?_⟩
+    · rw [hv, List.map_append, List.length_append, List.length_singleton, List.range_succ, hi.idx, hlen]
+      simp [hidx]
+    · intro x hx
+      rw [hv, List.mem_append, List.mem_singleton] at hx
+      rcases hx with hx | rfl
+      · exact hi.salts x hx
+      · exact ⟨h1, h2⟩
+    · rw [hv, hinv, List.length_append, List.length_singleton]; have := hi.count; omega
+
+theorem scanInv_of_fold (fh : FileH) (h : WalHeader) (n : Nat) (st : WalScan)
+    (hs : (List.range n).foldlM (walScanStep fh h) {} = .ok st) : ScanInv h n st :=
+  foldlM_range_induct (walScanStep fh h) {} (ScanInv h) (scanInv_init h)
+    (fun i s s' hi hstep => scanInv_step fh h i s s' hi hstep) n st hs
+
+theorem stale_never_served (gs : Option Nat) (file : Buf) (w : Wal) (h : openWal gs file = .ok w) :
+    (∀ f ∈ w.frames, f.hdr.salt1 = w.hdr.salt1 ∧ f.hdr.salt2 = w.hdr.salt2) ∧
+    (∀ f ∈ w.invalid, f.hdr.salt1 ≠ w.hdr.salt1) ∧
+    (w.frames.map Frame.index = List.range w.frames.length) := by
+  obtain ⟨hdr, st, fsize, _, _, hfold, _, _, hh, hf, hi, _⟩ := openWal_ok gs file w h
+  have inv := scanInv_of_fold _ _ _ _ hfold
+  rw [hh, hf, hi]
+  exact ⟨inv.salts, inv.stale, inv.idx⟩
+
+theorem lastCommit_concat (init : List Frame) (last : Frame)
+    (hidx : (init ++ [last]).map Frame.index = List.range (init ++ [last]).length)
+    (hlc : lastCommitIndex (init ++ [last]) = ((init ++ [last]).length : Int) - 1) :
+    last.isCommit = true := by
+  by_cases hl : last.isCommit = true
+  · exact hl
+  · exfalso
+    rw [List.length_append, List.length_singleton, List.range_succ, List.map_append] at hidx
+    have hinit : init.map Frame.index = List.range init.length :=
+      (List.append_inj hidx (by simp)).1
+    unfold lastCommitIndex at hlc
+    rw [List.reverse_append, List.reverse_singleton, List.singleton_append, List.find?_cons] at hlc
+    have hl' : last.isCommit = false := by simpa using hl
+    rw [hl'] at hlc
+    simp only [List.length_append, List.length_singleton] at hlc
+    split at hlc
+    · rename_i f hfind
+      have hmem : f ∈ init := List.mem_reverse.mp (List.mem_of_find?_eq_some hfind)
+      have : f.index ∈ init.map Frame.index := List.mem_map_of_mem hmem
+      rw [hinit, List.mem_range] at this
+      omega
+    · omega
+
+theorem accepted_ends_in_commit (gs : Option Nat) (file : Buf) (w : Wal) (h : openWal gs file = .ok w) :
+    ∃ init last, w.frames = init ++ [last] ∧ last.isCommit = true ∧ (groupFrames w.frames [] []).2 = [] := by
+  obtain ⟨hdr, st, fsize, _, _, hfold, hne, hlc, hh, hf, hi, _⟩ := openWal_ok gs file w h
+  have inv := scanInv_of_fold _ _ _ _ hfold
+  rw [hf]
+  obtain ⟨init, last, hv⟩ : ∃ init last, st.valid = init ++ [last] :=
+    ⟨st.valid.dropLast, st.valid.getLast hne, (List.dropLast_concat_getLast hne).symm⟩
+  have hidx := inv.idx
+  rw [hv] at hidx hlc ⊢
+  have hl := lastCommit_concat init last hidx hlc
+  exact ⟨init, last, rfl, hl, group_ends_commit init last hl⟩
+
+/-! ### truncation -/
+
+theorem slice_size_trunc (file : Buf) (n : Nat) (hle : n ≤ file.size) : (file.slice 0 n).size = n := by
+  simp only [Buf.slice]; omega
+
+theorem slice_slice (file : Buf) (n lo hi : Nat) (hle : n ≤ file.size) (hlo : lo ≤ hi) (hhi : hi ≤ n) :
+    (file.slice 0 n).slice lo hi = file.slice lo hi := by
+  simp only [Buf.slice]
+  congr 1
+  · omega
+  · funext i
+    congr 1
+    omega
+
+theorem read_trunc (file : Buf) (n off len : Nat) (hle : n ≤ file.size) (hlen : 0 < len) (h : off + len ≤ n) :
+    FileH.read ⟨n, file.slice 0 n⟩ off len = FileH.read ⟨file.size, file⟩ off len := by
+  unfold FileH.read
+  simp only
+  rw [if_neg (by omega), if_neg (by omega), if_neg (by omega), if_neg (by omega),
+    slice_slice file n off (off + len) hle (by omega) h]
+
+theorem readFrame_trunc (file : Buf) (n ps i c : Nat) (hle : n ≤ file.size)
+    (h : 32 + (i + 1) * (24 + ps) ≤ n) :
+    readFrame ⟨n, file.slice 0 n⟩ ps i c = readFrame ⟨file.size, file⟩ ps i c := by
+  unfold readFrame
+  simp only [Generated.WAL_HEADER_LENGTH, Generated.WAL_FRAME_HEADER_LENGTH]
+  rw [read_trunc file n _ _ hle (by omega) (by rw [Nat.add_mul] at h; omega)]
+
+theorem walScanStep_trunc (file : Buf) (n i : Nat) (hdr : WalHeader) (st : WalScan) (hle : n ≤ file.size)
+    (h : 32 + (i + 1) * (24 + hdr.pageSize) ≤ n) :
+    walScanStep ⟨n, file.slice 0 n⟩ hdr st i = walScanStep ⟨file.size, file⟩ hdr st i := by
+  unfold walScanStep
+  rw [readFrame_trunc file n _ i _ hle h]
+
+theorem foldlM_congr_mem {σ : Type} (f g : σ → Nat → Py σ) (l : List Nat)
+    (h : ∀ i ∈ l, ∀ s, f s i = g s i) : ∀ s, l.foldlM f s = l.foldlM g s := by
+  induction l with
+  | nil => intro s; rfl
+  | cons a l ih =>
+    intro s
+    rw [List.foldlM_cons, List.foldlM_cons, h a (by simp) s]
+    cases g s a with
+    | error e => rfl
+    | ok s' => exact ih (fun i hi => h i (by simp [hi])) s'
+
+theorem scan_valid_prefix (fh : FileH) (hdr : WalHeader) (l : List Nat) : ∀ (s s' : WalScan),
+    l.foldlM (walScanStep fh hdr) s = .ok s' → s.valid <+: s'.valid := by
+  induction l with
+  | nil => intro s s' h; simp only [List.foldlM_nil, pure, Except.pure, Except.ok.injEq] at h; subst h; exact List.prefix_refl _
+  | cons a l ih =>
+    intro s s' h
+    rw [List.foldlM_cons] at h
+    simp only [bind, Except.bind] at h
+    split at h
+    · exact nomatch h
+    · rename_i s1 hs1
+      obtain ⟨f, _, hcase⟩ := walScanStep_ok fh hdr s s1 a hs1
+      have h2 := ih s1 s' h
+      rcases hcase with ⟨_, hv, _⟩ | ⟨_, _, _, hv, _⟩
+      · rw [← hv]; exact h2
+      · exact List.IsPrefix.trans (by rw [hv]; exact List.prefix_append _ _) h2
+
+theorem nFrames_nat (n ps : Nat) (hn : 32 ≤ n) :
+    Int.tdiv ((n : Int) - Generated.WAL_HEADER_LENGTH) ((Generated.WAL_FRAME_HEADER_LENGTH : Int) + ps)
+      = ((Spec.wholeFrames ps n : Nat) : Int) := by
+  simp only [Generated.WAL_HEADER_LENGTH, Generated.WAL_FRAME_HEADER_LENGTH, Spec.wholeFrames]
+  rw [← Int.natCast_sub hn, ← Int.natCast_add, Int.ofNat_tdiv]
+
+theorem wholeFrames_mono (ps n m : Nat) (h : n ≤ m) : Spec.wholeFrames ps n ≤ Spec.wholeFrames ps m := by
+  unfold Spec.wholeFrames
+  exact Nat.div_le_div_right (by omega)
+
+theorem wholeFrames_bound (ps n i : Nat) (h : i < Spec.wholeFrames ps n) (hn : 32 ≤ n) :
+    32 + (i + 1) * (24 + ps) ≤ n := by
+  unfold Spec.wholeFrames at h
+  have := (Nat.le_div_iff_mul_le (k := 24 + ps) (x := i + 1) (y := n - 32) (by omega)).mp h
+  omega
+
+theorem frames_of_truncated (file : Buf) (n : Nat) (hn : 32 ≤ n) (hle : n ≤ file.size) (w : Wal)
+    (h : openWal none (file.slice 0 n) = .ok w) :
+    w.nFrames = Spec.wholeFrames w.hdr.pageSize n ∧ w.frames.length + w.invalid.length = Spec.wholeFrames w.hdr.pageSize n := by
+  obtain ⟨hdr, st, fsize, hfs, _, hfold, _, _, hh, hf, hi, hnf⟩ := openWal_ok none (file.slice 0 n) w h
+  have hfs' : fsize = n := by rw [hfs]; exact slice_size_trunc file n hle
+  subst hfs'
+  rw [nFrames_nat _ _ hn] at hnf hfold
+  rw [Int.toNat_natCast] at hfold
+  have inv := scanInv_of_fold _ _ _ _ hfold
+  rw [hh, hf, hi, hnf]
+  exact ⟨rfl, inv.count⟩
+
+theorem truncated_frames_prefix (file : Buf) (n : Nat) (hn : 32 ≤ n) (hle : n ≤ file.size) (w w' : Wal)
+    (hfull : openWal none file = .ok w) (hcut : openWal none (file.slice 0 n) = .ok w') :
+    w'.frames.map (fun f => (f.index, f.hdr)) <+: w.frames.map (fun f => (f.index, f.hdr)) := by
+  obtain ⟨hdr, st, fsize, hfs, hhdr, hfold, _, _, _, hf, _, _⟩ := openWal_ok none file w hfull
+  obtain ⟨hdr', st', fsize', hfs', hhdr', hfold', _, _, _, hf', _, _⟩ := openWal_ok none (file.slice 0 n) w' hcut
+  have e1 : fsize = file.size := hfs
+  have e2 : fsize' = n := by rw [hfs']; exact slice_size_trunc file n hle
+  subst e1 e2
+  simp only [Generated.WAL_HEADER_LENGTH] at hhdr hhdr'
+  rw [slice_slice file fsize' 0 32 hle (by omega) hn, hhdr] at hhdr'
+  have e3 : hdr' = hdr := by injection hhdr' with h; exact h.symm
+  subst e3
+  have hsz : 32 ≤ file.size := by omega
+  rw [nFrames_nat _ _ hn, Int.toNat_natCast] at hfold'
+  rw [nFrames_nat _ _ hsz, Int.toNat_natCast] at hfold
+  -- truncated scan = full-file scan over the shorter range
+  rw [foldlM_congr_mem _ (walScanStep ⟨file.size, file⟩ hdr') _ (fun i hi s =>
+      walScanStep_trunc file fsize' i hdr' s hle
+        (wholeFrames_bound _ _ _ (List.mem_range.mp hi) hn))] at hfold'
+  obtain ⟨d, hd⟩ : ∃ d, Spec.wholeFrames hdr'.pageSize file.size = Spec.wholeFrames hdr'.pageSize fsize' + d :=
+    ⟨_, (Nat.add_sub_cancel' (wholeFrames_mono _ _ _ hle)).symm⟩
+  rw [hd, List.range_add, List.foldlM_append, hfold'] at hfold
+  simp only [bind, Except.bind] at hfold
+  have hp := scan_valid_prefix _ _ _ _ _ hfold
+  rw [hf, hf']
+  obtain ⟨t, ht⟩ := hp
+  exact ⟨t.map _, by rw [← ht, List.map_append]⟩
 end SqliteDissect.Proofs.Wal
